@@ -19,7 +19,11 @@ BOXSETS == { << <<2, 3, 0, 100>>, <<5, 8, -1, -1>> >>,            \* disjoint, s
              << <<2, 5, 0, 200>>, <<3, 8, 100, 300>> >>,            \* overlapping rectangles: rejected
              << <<2, 5, 0, 90>>, <<2, 5, 90, 300>> >>,              \* share the edge d = 90 (not overlapping as rectangles)
              << <<3, 3, 0, 360>> >>,                                  \* fmin = fmax: rejected
-             << <<2, 8, 40, 200>> >> }
+             << <<2, 8, 40, 200>> >>,
+             << <<2, 8, 0, 200>>, <<3, 5, 90, 90>> >>,              \* a one-row box (dmin = dmax) INSIDE another box: they share bins, rejected
+             << <<2, 3, 0, 100>>, <<5, 8, 180, 180>> >>,            \* a one-row box apart from the other: valid, owns the bins of that direction
+             << <<2, 8, 30, 30>>, <<2, 8, 150, 150>> >>,
+             << <<2, 8, 0, 0>> >> }                                  \* the one row at north: an explicit limit of zero is a limit            \* two one-row boxes
 CUTS == {<<3, 8>>, <<4, 6>>, <<2, 5>>, <<-1, 6>>, <<4, -1>>, <<3, 7>>}     \* fmin, fmax on and off nodes
 DCUTS == {<<-1, -1>>, <<40, 200>>, <<90, 270>>, <<-1, 180>>}
 FCUTS == {3, 4, 6, 7}
